@@ -787,9 +787,18 @@ pub struct C12 {
     aux: Vec<Listener>,
     pool: Option<PoolState>,
     node: Option<NodeState>,
+    /// the ops of the current stateful case (the replayable input of a pool / node monitor failure)
+    case_ops: Vec<Value>,
+    /// every Noise session id seen in this run
+    seen_ids: HashSet<Vec<u8>>,
 }
 
 impl C12 {
+    /// The current case as one replayable op line.
+    fn case_input(&self) -> Value {
+        json!({"op": "case", "reset": true, "ops": self.case_ops})
+    }
+
     fn new() -> Self {
         let rt = tokio::runtime::Builder::new_multi_thread().worker_threads(4).enable_all().build().unwrap();
         let g = rt.enter();
@@ -806,6 +815,8 @@ impl C12 {
             aux,
             pool: None,
             node: None,
+            case_ops: vec![],
+            seen_ids: HashSet::new(),
         }
     }
 }
@@ -913,6 +924,12 @@ impl C12 {
             }
             Ok(Ok(x)) => x,
         };
+        for (id, label) in &sids.0 {
+            // the id of every real session of this run is new (the constant "id of no session" is not a session)
+            if *label != sid + OTHER && !self.seen_ids.insert(id.clone()) {
+                fails.push(("noise/two-sessions-share-an-id".into(), "a Noise session id occurred twice in this run".into()));
+            }
+        }
         let abs = |b: &Vec<u8>| parse_frame(v.net, b).map(|t| w.abstract_frame(&t, &sids));
         let delivered = pl.delivered.as_ref().and_then(abs);
         let reflected = match (&pl.delivered, &pl.sent) {
@@ -1043,14 +1060,14 @@ impl C12 {
         let keys: Vec<u64> = cur.iter().map(|e| e.0).collect();
         let uniq: BTreeSet<u64> = keys.iter().copied().collect();
         if uniq.len() != keys.len() {
-            out.oracle_fail("pool/duplicate-key", "two entries for one key", json!({"op": op, "cur": cur}));
+            out.oracle_fail("pool/duplicate-key", "two entries for one key", self.case_input());
         }
         let extras = keys.iter().filter(|k| !ps.allowed.contains(k)).count() as u64;
         if extras > ps.limit {
-            out.oracle_fail("pool/quota-exceeded", &format!("{extras} entries outside the allowed set, limit {}", ps.limit), json!({"op": op, "cur": cur}));
+            out.oracle_fail("pool/quota-exceeded", &format!("{extras} entries outside the allowed set, limit {}", ps.limit), self.case_input());
         }
         if sorted(ps.pool.subscribed()) != cur {
-            out.oracle_fail("pool/subscriber-view-differs", "subscribe() shows other contents than current()", json!({"op": op, "cur": cur}));
+            out.oracle_fail("pool/subscriber-view-differs", "subscribe() shows other contents than current()", self.case_input());
         }
     }
 
@@ -1081,13 +1098,13 @@ impl C12 {
                     want.sort();
                 }
                 if cur != want {
-                    out.oracle_fail("pool/insert-effect", &format!("insert({k},{v}) = {cls}: contents {before:?} -> {cur:?}"), op.clone());
+                    out.oracle_fail("pool/insert-effect", &format!("insert({k},{v}) = {cls}: contents {before:?} -> {cur:?}"), self.case_input());
                 }
                 if cls == "ok" && before.iter().any(|e| e.0 == k) {
-                    out.oracle_fail("pool/second-entry-for-key", "insert succeeded for a key that was present", op.clone());
+                    out.oracle_fail("pool/second-entry-for-key", "insert succeeded for a key that was present", self.case_input());
                 }
                 if cls == "ok" && !ps.allowed.contains(&k) && before.iter().filter(|e| !ps.allowed.contains(&e.0)).count() as u64 >= ps.limit {
-                    out.oracle_fail("pool/quota-exceeded", "insert of a non-allowed key succeeded with the quota used up", op.clone());
+                    out.oracle_fail("pool/quota-exceeded", "insert of a non-allowed key succeeded with the quota used up", self.case_input());
                 }
                 self.monitor_pool(out, op, &cur);
                 json!({"res": cls, "cur": pairs_json(&cur)})
@@ -1100,7 +1117,7 @@ impl C12 {
                 let cur = sorted(ps.pool.current());
                 let want: Vec<(u64, u64)> = before.iter().copied().filter(|e| e.0 != k).collect();
                 if cur != want {
-                    out.oracle_fail("pool/remove-effect", &format!("remove({k}): contents {before:?} -> {cur:?}"), op.clone());
+                    out.oracle_fail("pool/remove-effect", &format!("remove({k}): contents {before:?} -> {cur:?}"), self.case_input());
                 }
                 self.monitor_pool(out, op, &cur);
                 json!({"cur": pairs_json(&cur)})
@@ -1137,7 +1154,7 @@ impl C12 {
                 let cur = sorted(ps.pool.current());
                 let fin: BTreeMap<u64, u64> = cur.iter().copied().collect();
                 if ops.len() <= 7 && !linearizable(&before, &ps.allowed, ps.limit, &ops, &results, &mut vec![false; ops.len()], &fin) {
-                    out.oracle_fail("pool/not-linearizable", &format!("no order of the concurrent calls explains results {results:?} and contents {cur:?}"), op.clone());
+                    out.oracle_fail("pool/not-linearizable", &format!("no order of the concurrent calls explains results {results:?} and contents {cur:?}"), self.case_input());
                 }
                 self.monitor_pool(out, op, &cur);
                 let n_ok = results.iter().filter(|r| **r == "ok").count();
@@ -1194,7 +1211,7 @@ impl C12 {
             let (net, dir) = names[i];
             let keys: BTreeSet<u64> = pool.iter().map(|e| e.0).collect();
             if keys.len() != pool.len() {
-                out.oracle_fail(&format!("node/duplicate-key/{net}/{dir}"), "two connections of one identity in one direction", json!({"op": op, "pool": pool}));
+                out.oracle_fail(&format!("node/duplicate-key/{net}/{dir}"), "two connections of one identity in one direction", self.case_input());
             }
             for (k, c) in pool {
                 // attribution: the remote end of the admitted connection holds the secret key of the identity
@@ -1206,19 +1223,19 @@ impl C12 {
                     } else {
                         format!("attribution/key-not-held-by-remote/{net}/{dir}/node")
                     };
-                    out.oracle_fail(&site, &format!("connection {c} is registered under key {k}, but its remote end holds only the keys {holds:?}"), json!({"op": op, "pool": pool}));
+                    out.oracle_fail(&site, &format!("connection {c} is registered under key {k}, but its remote end holds only the keys {holds:?}"), self.case_input());
                 }
                 if i >= 2 && *k as usize >= COMMITTEE {
-                    out.oracle_fail(&format!("committee/{net}/{dir}"), &format!("key {k} is not in the committee"), json!({"op": op, "pool": pool}));
+                    out.oracle_fail(&format!("committee/{net}/{dir}"), &format!("key {k} is not in the committee"), self.case_input());
                 }
             }
         }
         let dyn_in = p[0].iter().filter(|e| !ns.static_in.contains(&(e.0 as usize))).count() as u64;
         if dyn_in > ns.dyn_limit {
-            out.oracle_fail("quota/gossip/inbound", &format!("{dyn_in} non-static inbound connections, limit {}", ns.dyn_limit), json!({"op": op}));
+            out.oracle_fail("quota/gossip/inbound", &format!("{dyn_in} non-static inbound connections, limit {}", ns.dyn_limit), self.case_input());
         }
         if let Some(e) = p[1].iter().find(|e| !ns.static_out.contains(&(e.0 as usize))) {
-            out.oracle_fail("quota/gossip/outbound", &format!("outbound connection to non-configured peer {}", e.0), json!({"op": op}));
+            out.oracle_fail("quota/gossip/outbound", &format!("outbound connection to non-configured peer {}", e.0), self.case_input());
         }
     }
 
@@ -1260,7 +1277,7 @@ impl C12 {
                 let (net, engine) = match built {
                     Ok(x) => x,
                     Err(e) => {
-                        out.oracle_fail("harness/error", &format!("Network::new: {e:#}"), op.clone());
+                        out.oracle_fail("harness/error", &format!("Network::new: {e:#}"), self.case_input());
                         return json!({"harness_error": format!("{e:#}")});
                     }
                 };
@@ -1349,11 +1366,11 @@ impl C12 {
                 });
                 let r = match res {
                     Err(_) => {
-                        out.oracle_fail("harness/hang", "the scenario did not finish", op.clone());
+                        out.oracle_fail("harness/hang", "the scenario did not finish", self.case_input());
                         return json!({"hang": true});
                     }
                     Ok(Err(e)) => {
-                        out.oracle_fail("harness/error", &format!("{e:#}"), op.clone());
+                        out.oracle_fail("harness/error", &format!("{e:#}"), self.case_input());
                         return json!({"harness_error": format!("{e:#}")});
                     }
                     Ok(Ok(x)) => x,
@@ -1391,11 +1408,11 @@ impl C12 {
                     // which keeps redialling until its context is cancelled
                     why = self.rt.block_on(async { if abort_after_close { task.stop().await } else { task.join().await } });
                     if why == "still running" {
-                        out.oracle_fail("harness/hang", "a refused connection's task did not return", op.clone());
+                        out.oracle_fail("harness/hang", "a refused connection's task did not return", self.case_input());
                     }
                 }
                 for (site, what) in fails {
-                    out.oracle_fail(&site, &what, op.clone());
+                    out.oracle_fail(&site, &what, self.case_input());
                 }
                 let ns = self.node.as_ref().unwrap();
                 let snap = ns.snapshot(w);
@@ -1405,7 +1422,7 @@ impl C12 {
                 let entry = snap[idx].iter().find(|e| e.1 == conn).copied();
                 if admitted != entry.is_some() {
                     out.oracle_fail(&format!("node/served-but-not-registered/{}/{}", net.name(), dir.name()),
-                        &format!("served = {admitted}, registered = {entry:?}"), op.clone());
+                        &format!("served = {admitted}, registered = {entry:?}"), self.case_input());
                 }
                 let mut obs = json!({"out": if admitted { "admitted" } else { "refused" }, "hs_sent": hs_sent, "_why": why, "pools": pools_json(&snap)});
                 if let Some(e) = entry {
@@ -1440,13 +1457,13 @@ impl C12 {
                 });
                 let _ = (lc.net, lc.dir);
                 if !gone {
-                    out.oracle_fail("harness/hang", "the connection did not end after the remote closed it", op.clone());
+                    out.oracle_fail("harness/hang", "the connection did not end after the remote closed it", self.case_input());
                 }
                 let ns = self.node.as_ref().unwrap();
                 let snap = ns.snapshot(w);
                 self.monitor_node(out, op, &snap);
                 if snap.iter().any(|p| p.iter().any(|e| e.1 == conn)) {
-                    out.oracle_fail("node/entry-survives-disconnect", "the pool still lists a connection that ended", op.clone());
+                    out.oracle_fail("node/entry-survives-disconnect", "the pool still lists a connection that ended", self.case_input());
                 }
                 json!({"out": "closed", "pools": pools_json(&snap)})
             }
@@ -1721,6 +1738,20 @@ impl Prop for C12 {
 
     fn exec(&mut self, op: &Value, out: &mut Out) -> Value {
         let name = op["op"].as_str().unwrap_or("?").to_string();
+        if name == "case" {
+            // a whole stateful case as one line (the replay form of a pool / node monitor failure)
+            let mut last = json!({"bad_op": true});
+            for o in op["ops"].as_array().cloned().unwrap_or_default() {
+                last = self.exec(&o, out);
+            }
+            return last;
+        }
+        if op["reset"].as_bool() == Some(true) {
+            self.case_ops.clear();
+        }
+        if name != "hs" {
+            self.case_ops.push(op.clone());
+        }
         let r = catch(|| {
             if name == "hs" {
                 self.exec_hs(op, out)
@@ -1735,7 +1766,7 @@ impl Prop for C12 {
         match r {
             Ok(v) => v,
             Err(site) => {
-                out.oracle_fail(&format!("panic/{name}"), &format!("panicked: {site}"), op.clone());
+                out.oracle_fail(&format!("panic/{name}"), &format!("panicked: {site}"), if name == "hs" { op.clone() } else { self.case_input() });
                 json!({"panic": site})
             }
         }
